@@ -10,6 +10,7 @@ package evalfilter
 import (
 	"context"
 	"fmt"
+	"sort"
 	"strings"
 	"sync"
 
@@ -206,7 +207,14 @@ func (e *Eval) checkLimits() error {
 	if len(e.instructions) > max {
 		return fmt.Errorf("the program is too large: %d bytes of bytecode, the limit is %d", len(e.instructions), max)
 	}
-	for name, fn := range e.functions {
+	// (Sorted, so that we always complain about the same function.)
+	names := make([]string, 0, len(e.functions))
+	for name := range e.functions {
+		names = append(names, name)
+	}
+	sort.Strings(names)
+	for _, name := range names {
+		fn := e.functions[name]
 		if len(fn.Bytecode) > max {
 			return fmt.Errorf("the function %s is too large: %d bytes of bytecode, the limit is %d", name, len(fn.Bytecode), max)
 		}
